@@ -11,12 +11,12 @@ EXTENDS Compiler, Json, IOUtils
 Batch == JsonDeserialize(IOEnv.TRACE_FILE)
 Traces == Batch.traces
 
-VARIABLES tid, tr, cs, l, why, steps
-tvars == <<tid, tr, cs, l, why, steps>>
+VARIABLES tid, tr, cs, l, why, steps, amb
+tvars == <<tid, tr, cs, l, why, steps, amb>>
 
 Init ==
     \E T \in {Traces} : \E k \in 1..Len(T) :
-        /\ tid = k /\ tr = T[k] /\ l = 1 /\ why = "" /\ steps = 0
+        /\ tid = k /\ tr = T[k] /\ l = 1 /\ why = "" /\ steps = 0 /\ amb = FALSE
         /\ cs = CInit(T[k].files, T[k].main, T[k].trad)
 
 (* ---- phase 1: run the machine, one declaration per step ---- *)
@@ -24,6 +24,7 @@ Compile ==
     /\ cs.status = "run"
     /\ cs' = CStep(cs)
     /\ steps' = steps + 1
+    /\ amb' = (amb \/ NextDeclAmbiguous(cs))
     /\ UNCHANGED <<tid, tr, l, why>>
 
 (* ---- phase 2: decide the observations ---- *)
@@ -50,6 +51,7 @@ RefSet == {<< cs.refs[x].file, cs.refs[x].line, cs.refs[x].path, cs.refs[x].dfil
 Check(e) ==
     CASE e.ev = "Outcome" ->
             IF cs.status = "rejected" /\ cs.err.kind = "out-of-model" THEN "skip:out-of-model"
+            ELSE IF amb /\ e.outcome \in {"accepted", "rejected"} THEN "skip:ambiguous-dotted-path"
             ELSE IF e.outcome = "raise" THEN "raise:" \o e.what
             ELSE IF e.outcome = "hang" THEN "hang"
             ELSE IF cs.status = "accepted"
@@ -85,6 +87,17 @@ Check(e) ==
                 ELSE IF d.vt # e.vt THEN "constant-type"
                 ELSE IF d.v # e.v THEN "constant-value"
                 ELSE "")
+      [] e.ev = "ConstLit" ->
+            \* the literal emitted into a target language denotes the declared value
+            With(DefIn(e.file, << e.name >>), LAMBDA d :
+                IF d.k # "const" THEN "no-such-constant"
+                ELSE IF d.vt = "int" /\ ~InModel(d.v) THEN ""
+                ELSE IF d.vt # e.vt THEN "literal-type:" \o e.lang
+                ELSE IF d.v # e.v THEN "literal-value:" \o e.lang
+                ELSE "")
+      [] e.ev = "ConstMissing" -> "constant-not-emitted:" \o e.lang
+      [] e.ev = "Raise" -> "raise:" \o e.what
+      [] e.ev = "Fault" -> "fault:" \o e.what
       [] e.ev = "Refs" ->
             \* every reference the real parser recorded resolves where the spec says
             With(RefSet, LAMBDA S :
@@ -110,7 +123,7 @@ Decide ==
     /\ LET r == Check(tr.obs[l])
        IN  why' = IF why = "" /\ r # "" THEN ToString(l) \o ":" \o r ELSE why
     /\ l' = l + 1
-    /\ UNCHANGED <<tid, tr, cs, steps>>
+    /\ UNCHANGED <<tid, tr, cs, steps, amb>>
 
 Report ==
     /\ cs.status # "run"
@@ -118,7 +131,7 @@ Report ==
     /\ PrintT("V|" \o ToString(tid) \o "|" \o (IF why = "" THEN "1" ELSE "0") \o "|" \o why
               \o "|" \o cs.status \o "|" \o cs.err.kind)
     /\ l' = l + 1
-    /\ UNCHANGED <<tid, tr, cs, why, steps>>
+    /\ UNCHANGED <<tid, tr, cs, why, steps, amb>>
 
 Next == Compile \/ Decide \/ Report
 Spec == Init /\ [][Next]_tvars
